@@ -1157,7 +1157,7 @@ Theorem lists_cover_run_refuted :
   exists o ids vs cs out,
     run_wf ids cs = true /\ run_current o ids vs cs = Some out /\
     ~ (exists calls,
-         Forall2 (fun ci es => inst_rec_entries er (c_name (fst ci)) (snd ci) = Some es) (instances cs) calls /\
+         Forall2 (fun ci es => inst_rec_entries current_emptyrule (c_name (fst ci)) (snd ci) = Some es) (instances cs) calls /\
          out_recs out = Some (Header :: map Entry (concat calls))) /\
     ~ (exists calls,
          Forall2 (fun c es => exists wr,
@@ -1282,4 +1282,25 @@ Proof.
   split; [vm_compute; reflexivity|]. split.
   - intros ci [<-|[]]; vm_compute; auto.
   - split; [vm_compute; reflexivity | vm_compute; discriminate].
+Qed.
+
+(* repaired find_recombination: with the cost vectors that the (unchanged) cost computers return
+   (length max 1 #positions) write_recombination_list never fails on an instance *)
+Theorem inst_rec_entries_total_repaired : forall chromname i,
+  length (i_tv i) = length (i_positions i) ->
+  length (i_costs i) = Nat.max 1 (length (i_positions i)) ->
+  (forall pc, In pc (i_comps i) -> In (fst pc) (i_positions i)) ->
+  exists es, inst_rec_entries EmptyOk chromname i = Some es.
+Proof.
+  intros chromname i H1 H2 Hsub.
+  destruct (i_positions i) as [|p0 ps] eqn:Ep.
+  - unfold inst_rec_entries.
+    destruct (map_opt_total _ _ (trio_rec_entries EmptyOk chromname i)
+                (combine (seq 0 (length (i_trios i))) (i_trios i))) as [ll Hll].
+    + intros kt _; unfold trio_rec_entries, find_recombination; rewrite Ep; eexists; reflexivity.
+    + rewrite Hll; eexists; reflexivity.
+  - apply inst_rec_entries_total.
+    + rewrite Ep; exact H1.
+    + rewrite Ep in *; cbn [length] in *; lia.
+    + rewrite Ep; exact Hsub.
 Qed.
